@@ -35,6 +35,9 @@ type Blank struct {
 	watchCtx context.Context
 	wa       dials.WatchArgs
 	t        *dials.Type
+	// handedOver is set once a Watcher inner source has been started
+	// (its Watch returned nil): from then on the watch slot is its.
+	handedOver bool
 }
 
 var _ dials.Source = (*Blank)(nil)
@@ -100,11 +103,9 @@ func (b *Blank) SetSource(ctx context.Context, s dials.Source) error {
 	b.mu.Lock()
 	defer b.mu.Unlock()
 
-	if b.inner != nil {
-		if _, isWatcher := b.inner.(dials.Watcher); isWatcher {
-			return fmt.Errorf("disallowed attempt to replace Watcher Source: %T",
-				b.inner)
-		}
+	if b.handedOver {
+		return fmt.Errorf("disallowed attempt to replace Watcher Source: %T",
+			b.inner)
 	}
 
 	v, err := s.Value(ctx, b.t)
@@ -121,6 +122,10 @@ func (b *Blank) SetSource(ctx context.Context, s dials.Source) error {
 		if wErr != nil {
 			return &wrappedErr{prefix: "call to Watch failed: ", err: wErr}
 		}
+		// Only now does the slot belong to the new Watcher. If its first
+		// value was rejected or its Watch failed it never started, and the
+		// Blank must stay usable: another SetSource, or Done.
+		b.handedOver = true
 	}
 	return nil
 }
@@ -134,10 +139,8 @@ func (b *Blank) SetSource(ctx context.Context, s dials.Source) error {
 func (b *Blank) Done(ctx context.Context) {
 	b.mu.Lock()
 	defer b.mu.Unlock()
-	switch b.inner.(type) {
-	case dials.Watcher:
+	if b.handedOver {
 		return
-	default:
 	}
 	if b.wa == nil {
 		return
